@@ -5,7 +5,6 @@ import (
 	"go/token"
 	"go/types"
 	"os"
-	"sort"
 	"strings"
 
 	"golang.org/x/tools/go/ssa"
@@ -44,12 +43,13 @@ type State struct {
 	steps    int
 	outcome  string
 	trace    []string
-	nextObj  *int
-	locks    map[int]int // obj -> state (0 free, -1 write locked, n>0 readers)
+	nextObj  int
+	hvars    []int // indexes into vars of harness-visible variables (v* calls), in call order
+	events   []Event
 	hashBuf  map[int][]Value
 	lockv    map[string]int
 	pools    map[int][]Value
-	ivSeq, ivLen int
+	ivSeq, ivLen, ivHLen, ivEvLen int
 	ivNoYield bool
 	// thread mode
 	threadMode bool
@@ -59,6 +59,7 @@ type State struct {
 	tblock     []string
 	switches   int
 	noYield    bool
+	switched   bool // set when the current instruction gave up the CPU without completing
 	spawned    []Value
 	crcApps  [][]*Term
 }
@@ -75,7 +76,8 @@ func (st *State) clone() *State {
 		steps:    st.steps,
 		trace:    append([]string(nil), st.trace...),
 		nextObj:  st.nextObj,
-		locks:    map[int]int{},
+		hvars:    append([]int(nil), st.hvars...),
+		events:   append([]Event(nil), st.events...),
 		hashBuf:  map[int][]Value{},
 		lockv:    map[string]int{},
 		pools:    map[int][]Value{},
@@ -92,9 +94,6 @@ func (st *State) clone() *State {
 	}
 	for k, v := range st.heap {
 		n.heap[k] = v
-	}
-	for k, v := range st.locks {
-		n.locks[k] = v
 	}
 	for k, v := range st.globals {
 		n.globals[k] = v
@@ -137,15 +136,15 @@ func cloneFrames(fs []*Frame) []*Frame {
 }
 
 func (st *State) alloc(v Value) int {
-	*st.nextObj++
-	id := *st.nextObj
+	st.nextObj++
+	id := st.nextObj
 	st.heap[id] = v
 	return id
 }
 
 func (st *State) load(p *Ptr) Value {
 	if p == nil {
-		panic(goPanic{"nil pointer dereference"})
+		panic(goPanic{"runtime error: nil pointer dereference"})
 	}
 	root, ok := st.heap[p.Obj]
 	if !ok {
@@ -156,27 +155,52 @@ func (st *State) load(p *Ptr) Value {
 
 func (st *State) store(p *Ptr, v Value) {
 	if p == nil {
-		panic(goPanic{"nil pointer dereference"})
+		panic(goPanic{"runtime error: nil pointer dereference"})
 	}
 	st.heap[p.Obj] = setPath(st.heap[p.Obj], p.Path, v)
 }
 
 type goPanic struct{ msg string }
 
+// Event is an observable harness event (vEvent) with possibly symbolic arguments.
+type Event struct {
+	Kind string
+	Args []*Term
+}
+
+// Violation is a counterexample candidate: a failed vAssert or a forbidden outcome.
+type Violation struct {
+	Harness string            `json:"harness"`
+	Kind    string            `json:"kind"` // assert | panic | deadlock
+	ID      string            `json:"id"`
+	Values  []uint64          `json:"values"` // harness variables in v*-call order
+	Names   []string          `json:"names"`
+	AllVars map[string]uint64 `json:"all_vars"`
+	Events  []string          `json:"events"`
+	PC      int               `json:"pc_len"`
+}
+
 type Engine struct {
-	prog    *ssa.Program
-	solver  *Solver
-	work    []*State
-	paths   int
-	outcomes map[string]int
-	viol    []string
-	reach   map[string]int
-	asserts map[string]int
-	maxSteps int
-	forks   int
+	prog      *ssa.Program
+	solver    *Solver
+	sh        *Shared
+	work      []*State
+	paths     int
+	nontriv   int
+	outcomes  map[string]int
+	viol      []Violation
+	reach     map[string]int
+	asserts   map[string]int
+	assertQ   int
+	maxSteps  int
+	forks     int
 	funcsSeen map[*ssa.Function]bool
-	verbose bool
-	loggerIface *types.Interface
+	verbose   bool
+	harness   string
+	tier      int
+	pin       map[int]uint64
+	samples   []string
+	maxSwitch int
 }
 
 func (e *Engine) top(st *State) *Frame { return st.frames[len(st.frames)-1] }
@@ -241,8 +265,10 @@ func (e *Engine) branch(st *State, c *Term) bool {
 		cl.varSeq = st.ivSeq
 		cl.noYield = st.ivNoYield
 		cl.vars = cl.vars[:st.ivLen]
+		cl.hvars = cl.hvars[:st.ivHLen]
+		cl.events = cl.events[:st.ivEvLen]
 		cl.forced = append(append([]bool(nil), st.taken...), false)
-		e.work = append(e.work, cl)
+		e.pushFork(cl)
 		e.forks++
 	}
 	st.pc = append(st.pc, c)
@@ -264,10 +290,66 @@ func (e *Engine) concretize(st *State, t *Term, hi int) (int, bool) {
 	return 0, false
 }
 
+// chooseFresh forks over [0,n) for a variable that was created by the current
+// instruction and is therefore unconstrained: every value is feasible, so the
+// solver is not consulted.
+func (e *Engine) chooseFresh(st *State, v *Term, n int) (int, bool) {
+	if v.IsConst() { // pinned
+		k := int(v.C)
+		return k, k >= 0 && k < n
+	}
+	if n <= 0 {
+		return 0, false
+	}
+	for k := 0; k < n; k++ {
+		c := Cmp("=", v, Const(v.W, uint64(k)))
+		if len(st.forced) > 0 {
+			d := st.forced[0]
+			st.forced = st.forced[1:]
+			st.taken = append(st.taken, d)
+			if d {
+				st.pc = append(st.pc, c)
+				return k, true
+			}
+			continue
+		}
+		if k < n-1 {
+			cl := st.clone()
+			cl.varSeq = st.ivSeq
+			cl.noYield = st.ivNoYield
+			cl.vars = cl.vars[:st.ivLen]
+			cl.hvars = cl.hvars[:st.ivHLen]
+			cl.events = cl.events[:st.ivEvLen]
+			cl.forced = append(append([]bool(nil), st.taken...), false)
+			e.pushFork(cl)
+			e.forks++
+		}
+		st.pc = append(st.pc, c)
+		st.taken = append(st.taken, true)
+		return k, true
+	}
+	return 0, false
+}
+
 func (e *Engine) newVar(st *State, name string, w int) *Term {
 	st.varSeq++
+	if pv, ok := e.pin[st.varSeq]; ok {
+		c := Const(w, pv)
+		if w == 0 {
+			c = Bool(pv != 0)
+		}
+		st.vars = append(st.vars, c)
+		return c
+	}
 	v := Var(fmt.Sprintf("%s!%d", sanitize(name), st.varSeq), w)
 	st.vars = append(st.vars, v)
+	return v
+}
+
+// newHVar creates a harness-visible variable (the k-th v* call of the native run).
+func (e *Engine) newHVar(st *State, name string, w int) *Term {
+	v := e.newVar(st, name, w)
+	st.hvars = append(st.hvars, len(st.vars)-1)
 	return v
 }
 
@@ -358,6 +440,11 @@ func (e *Engine) run(st *State) {
 		st.steps++
 		if st.steps > e.maxSteps {
 			st.outcome = "UNWIND: step budget"
+			if os.Getenv("STACK") != "" {
+				for _, fr := range st.frames {
+					fmt.Fprintln(os.Stderr, "   at", fr.fn, fr.block.Index)
+				}
+			}
 			return
 		}
 		f := e.top(st)
@@ -368,6 +455,7 @@ func (e *Engine) run(st *State) {
 		in := f.block.Instrs[f.ip]
 		st.taken = st.taken[:0]
 		st.ivSeq, st.ivLen, st.ivNoYield = st.varSeq, len(st.vars), st.noYield
+		st.ivHLen, st.ivEvLen = len(st.hvars), len(st.events)
 		e.execSafe(st, f, in)
 	}
 }
@@ -395,9 +483,12 @@ func (e *Engine) unwind(st *State, f *Frame) {
 	// f is top frame, unwinding (panic in flight or recovered)
 	if len(f.defers) > 0 {
 		d := f.defers[len(f.defers)-1]
-		f.defers = f.defers[:len(f.defers)-1]
 		f.unwinding = true
+		st.switched = false
 		e.invoke(st, d.fn, d.args, nil, true)
+		if !st.switched {
+			f.defers = f.defers[:len(f.defers)-1]
+		}
 		return
 	}
 	if !st.panicking {
@@ -454,7 +545,7 @@ func (e *Engine) invoke(st *State, fv Value, args []Value, callInstr ssa.Value, 
 	switch fn := fv.(type) {
 	case *Func:
 		if fn == nil {
-			panic(goPanic{"call of nil func"})
+			panic(goPanic{"runtime error: call of nil func"})
 		}
 		if e.intrinsic(st, fn.Fn, args, callInstr, fromDefer) {
 			return
@@ -489,7 +580,7 @@ func (e *Engine) exec(st *State, f *Frame, in ssa.Instruction) {
 		if (x.Op == token.QUO || x.Op == token.REM) && isInt(x.X.Type()) {
 			bt := b.(*Term)
 			if e.branch(st, Cmp("=", bt, Const(bt.W, 0))) {
-				panic(goPanic{"integer divide by zero"})
+				panic(goPanic{"runtime error: integer divide by zero"})
 			}
 		}
 		f.env[x] = binop(x.Op, x.X.Type(), a, b)
@@ -551,7 +642,7 @@ func (e *Engine) exec(st *State, f *Frame, in ssa.Instruction) {
 	case *ssa.FieldAddr:
 		p := e.eval(st, f, x.X).(*Ptr)
 		if p == nil {
-			panic(goPanic{"nil pointer dereference"})
+			panic(goPanic{"runtime error: nil pointer dereference"})
 		}
 		f.env[x] = &Ptr{Obj: p.Obj, Path: appendPath(p.Path, x.Field)}
 		f.ip++
@@ -566,14 +657,14 @@ func (e *Engine) exec(st *State, f *Frame, in ssa.Instruction) {
 		case *Slice:
 			i, ok := e.concretize(st, idx, b.Len)
 			if !ok {
-				panic(goPanic{"index out of range"})
+				panic(goPanic{"runtime error: index out of range"})
 			}
 			f.env[x] = &Ptr{Obj: b.Obj, Path: appendPath(b.Path, b.Off+i)}
 		case *Ptr: // pointer to array
 			n := int(x.X.Type().Underlying().(*types.Pointer).Elem().Underlying().(*types.Array).Len())
 			i, ok := e.concretize(st, idx, n)
 			if !ok {
-				panic(goPanic{"index out of range"})
+				panic(goPanic{"runtime error: index out of range"})
 			}
 			f.env[x] = &Ptr{Obj: b.Obj, Path: appendPath(b.Path, i)}
 		default:
@@ -587,13 +678,13 @@ func (e *Engine) exec(st *State, f *Frame, in ssa.Instruction) {
 		case *Array:
 			i, ok := e.concretize(st, idx, len(b.E))
 			if !ok {
-				panic(goPanic{"index out of range"})
+				panic(goPanic{"runtime error: index out of range"})
 			}
 			f.env[x] = b.E[i]
 		case string:
 			i, ok := e.concretize(st, idx, len(b))
 			if !ok {
-				panic(goPanic{"index out of range"})
+				panic(goPanic{"runtime error: index out of range"})
 			}
 			f.env[x] = Const(8, uint64(b[i]))
 		default:
@@ -618,7 +709,7 @@ func (e *Engine) exec(st *State, f *Frame, in ssa.Instruction) {
 			}
 		}
 		if n < 0 || c < n {
-			panic(goPanic{"makeslice: len out of range"})
+			panic(goPanic{"runtime error: makeslice: len out of range"})
 		}
 		et := x.Type().Underlying().(*types.Slice).Elem()
 		arr := &Array{E: make([]Value, c)}
@@ -636,7 +727,7 @@ func (e *Engine) exec(st *State, f *Frame, in ssa.Instruction) {
 	case *ssa.MapUpdate:
 		m := e.eval(st, f, x.Map).(*MapRef)
 		if m.Obj == 0 {
-			panic(goPanic{"assignment to entry in nil map"})
+			panic(goPanic{"runtime error: assignment to entry in nil map"})
 		}
 		k := e.eval(st, f, x.Key)
 		v := e.eval(st, f, x.Value)
@@ -677,7 +768,7 @@ func (e *Engine) exec(st *State, f *Frame, in ssa.Instruction) {
 			idx := e.eval(st, f, x.Index).(*Term)
 			i, ok := e.concretize(st, idx, len(b))
 			if !ok {
-				panic(goPanic{"index out of range"})
+				panic(goPanic{"runtime error: index out of range"})
 			}
 			f.env[x] = Const(8, uint64(b[i]))
 		default:
@@ -750,7 +841,7 @@ func (e *Engine) exec(st *State, f *Frame, in ssa.Instruction) {
 			if x.CommaOk {
 				f.env[x] = &Tuple{V: []Value{zero(x.AssertedType), Bool(false)}}
 			} else {
-				panic(goPanic{"interface conversion failed"})
+				panic(goPanic{"runtime error: interface conversion failed"})
 			}
 		} else if x.CommaOk {
 			f.env[x] = &Tuple{V: []Value{res, Bool(true)}}
@@ -773,9 +864,15 @@ func (e *Engine) exec(st *State, f *Frame, in ssa.Instruction) {
 		f.ip++
 	case *ssa.RunDefers:
 		if len(f.defers) > 0 {
+			// The defer is popped only after the call went through: an inline
+			// intrinsic (mutex op) may fork or switch threads first, and the
+			// re-executed instruction must find it again.
 			d := f.defers[len(f.defers)-1]
-			f.defers = f.defers[:len(f.defers)-1]
+			st.switched = false
 			e.invoke(st, d.fn, d.args, nil, true)
+			if !st.switched {
+				f.defers = f.defers[:len(f.defers)-1]
+			}
 			return // re-execute RunDefers when the deferred call returns
 		}
 		f.ip++
@@ -859,7 +956,7 @@ func (e *Engine) execSlice(st *State, f *Frame, x *ssa.Slice) {
 		t := e.eval(st, f, v).(*Term)
 		k, ok := e.concretize(st, t, lim+1)
 		if !ok {
-			panic(goPanic{"slice bounds out of range"})
+			panic(goPanic{"runtime error: slice bounds out of range"})
 		}
 		return k
 	}
@@ -877,7 +974,7 @@ func (e *Engine) execSlice(st *State, f *Frame, x *ssa.Slice) {
 			max = get(x.Max, b.Cap)
 		}
 		if lo > hi || hi > max {
-			panic(goPanic{"slice bounds out of range"})
+			panic(goPanic{"runtime error: slice bounds out of range"})
 		}
 		if b.Nil && x.Low == nil && x.High == nil {
 			f.env[x] = b
@@ -893,7 +990,7 @@ func (e *Engine) execSlice(st *State, f *Frame, x *ssa.Slice) {
 			hi = get(x.High, len(b))
 		}
 		if lo > hi {
-			panic(goPanic{"slice bounds out of range"})
+			panic(goPanic{"runtime error: slice bounds out of range"})
 		}
 		f.env[x] = b[lo:hi]
 	case *Ptr: // *array
@@ -910,7 +1007,7 @@ func (e *Engine) execSlice(st *State, f *Frame, x *ssa.Slice) {
 			max = get(x.Max, n)
 		}
 		if lo > hi || hi > max {
-			panic(goPanic{"slice bounds out of range"})
+			panic(goPanic{"runtime error: slice bounds out of range"})
 		}
 		f.env[x] = &Slice{Obj: b.Obj, Path: b.Path, Off: lo, Len: hi - lo, Cap: max - lo}
 	default:
@@ -974,7 +1071,7 @@ func (e *Engine) resolveCall(st *State, f *Frame, c *ssa.CallCommon) (Value, []V
 			return &loggerCall{name: c.Method.Name()}, args
 		}
 		if recv == nil {
-			panic(goPanic{"invoke on nil interface: " + c.Method.Name()})
+			panic(goPanic{"runtime error: nil pointer dereference (invoke on nil interface " + c.Method.Name() + ")"})
 		}
 		ms := e.prog.MethodSets.MethodSet(recv.T)
 		sel := ms.Lookup(c.Method.Pkg(), c.Method.Name())
@@ -1274,39 +1371,8 @@ func (e *Engine) execSelect(st *State, f *Frame, x *ssa.Select) {
 	st.outcome = "DEADLOCK: blocking select"
 }
 
-// explore runs fn on all paths
-func (e *Engine) explore(init *State) {
-	e.work = append(e.work, init)
-	for len(e.work) > 0 {
-		st := e.work[len(e.work)-1]
-		e.work = e.work[:len(e.work)-1]
-		e.run(st)
-		e.paths++
-		o := st.outcome
-		if i := strings.Index(o, ":"); i > 0 && !strings.HasPrefix(o, "PANIC") {
-			// keep full for unsupported
-		}
-		e.outcomes[o]++
-		if e.verbose {
-			fmt.Fprintf(os.Stderr, "path %d: %s (steps %d, pc %d)\n", e.paths, o, st.steps, len(st.pc))
-		}
-	}
-}
-
-func (e *Engine) report() {
-	ks := make([]string, 0, len(e.outcomes))
-	for k := range e.outcomes {
-		ks = append(ks, k)
-	}
-	sort.Strings(ks)
-	for _, k := range ks {
-		fmt.Printf("  outcome %-60s %d\n", k, e.outcomes[k])
-	}
-}
-
 // ---- thread mode ----
 
-const maxSwitches = 3
 
 func (e *Engine) enabledOthers(st *State) []int {
 	var r []int
@@ -1324,6 +1390,7 @@ func (e *Engine) switchTo(st *State, t int) {
 	st.stacks[t] = nil
 	st.cur = t
 	st.noYield = true
+	st.switched = true
 }
 
 // yield is called before a synchronisation operation. It returns true when the
@@ -1337,11 +1404,11 @@ func (e *Engine) yield(st *State) bool {
 		return true
 	}
 	en := e.enabledOthers(st)
-	if len(en) == 0 || st.switches >= maxSwitches {
+	if len(en) == 0 || st.switches >= e.maxSwitch {
 		return true
 	}
 	v := e.newVar(st, "sched", 64)
-	k, ok := e.concretize(st, v, len(en)+1)
+	k, ok := e.chooseFresh(st, v, len(en)+1)
 	if !ok {
 		st.outcome = "assume-false"
 		return false
@@ -1362,7 +1429,7 @@ func (e *Engine) pickNext(st *State) (int, bool) {
 		return -1, true
 	}
 	v := e.newVar(st, "sched", 64)
-	k, ok := e.concretize(st, v, len(en))
+	k, ok := e.chooseFresh(st, v, len(en))
 	if !ok {
 		st.outcome = "assume-false"
 		return 0, false
@@ -1391,6 +1458,17 @@ func (e *Engine) applyNext(st *State, next int) {
 		return
 	}
 	st.outcome = "DEADLOCK: all threads blocked"
+	if os.Getenv("STACK") != "" {
+		fmt.Fprintf(os.Stderr, "DEADLOCK cur=%d tdone=%v tblock=%v lockv=%v\n", st.cur, st.tdone, st.tblock, st.lockv)
+		for ti, stk := range st.stacks {
+			if ti == st.cur {
+				stk = st.frames
+			}
+			for _, fr := range stk {
+				fmt.Fprintln(os.Stderr, "   t", ti, "at", fr.fn, fr.block.Index, fr.ip)
+			}
+		}
+	}
 }
 
 func (e *Engine) scheduleAfterBlockOrEnd(st *State) {
